@@ -43,8 +43,8 @@ theorem mapDesc_grammar_names (f : JStr → JStr) (t : FieldTy) : (t.map f).name
 
 example : mapDesc (fun n => n ++ jstr "!") (jstr "([[LL;IL$;)[La/b;") = some (jstr "([[LL!;IL$!;)[La/b!;") := by decide
 
-example : (Desc.method { params := [.arr (.arr (.obj (jstr "L"))), .prim .I], ret := some (.obj (jstr "é")) }).WF := by
-  decide
+example : (Desc.method { params := [.arr (.arr (.obj (jstr "L"))), .prim .I], ret := some (.obj (jstr "é")) }).WF :=
+  (parse?_sound (s := jstr "([[LL;I)Lé;") (by decide)).2
 
 /-- the accepted strings -/
 theorem mapDesc_accepts (f : JStr → JStr) (s : JStr) :
@@ -76,6 +76,7 @@ theorem mapClass_spec (m : Mappings) (src dst : Nat) (c : JStr) :
       | some y => y
       | none => c := by
   simp only [mapClass, mapClassFail, aTable, lookup_tableOf]
+  rfl
 
 theorem mapClassFail_spec (m : Mappings) (src dst : Nat) (c : JStr) :
     mapClassFail (aTable m src dst) c = lastPair (classPairs m src dst) c := by
@@ -254,6 +255,7 @@ theorem dfs_unfold (r : BTable) (sup : Supers) (f : Nat) (o : JStr) :
           | none => none
           | some l => some (o :: l) := by
   rw [dfs]
+  rfl
 
 /-- acyclic provider (a rank decreasing along the super-type edges of mapped classes): the fuel the driver uses,
 `number of mapped classes + 1`, always suffices -/
@@ -276,11 +278,12 @@ theorem unmapped_owner (sel : BClass → AList MemberKey MemberKey) (r : BTable)
 
 /-! ### an unmapped class hides what its super types declare -/
 
-def mU : Mappings :=
-  { ns := [jstr "official", jstr "named"], doc := none,
-    classes := [(jstr "P", { names := [some (jstr "P"), some (jstr "Q")], doc := none,
-      fields := [((jstr "f", jstr "I"), { desc := jstr "I", names := [some (jstr "f"), some (jstr "g")], doc := none })],
-      methods := [] })] }
+def fldU : MemberKey × Field :=
+  ((jstr "f", jstr "I"), { desc := jstr "I", names := [some (jstr "f"), some (jstr "g")], doc := none })
+
+def clsU : Class := { names := [some (jstr "P"), some (jstr "Q")], doc := none, fields := [fldU], methods := [] }
+
+def mU : Mappings := { ns := [jstr "official", jstr "named"], doc := none, classes := [(jstr "P", clsU)] }
 
 /-- `C extends P` -/
 def supU : Supers := [(jstr "C", [jstr "P"])]
@@ -288,9 +291,10 @@ def supU : Supers := [(jstr "C", [jstr "P"])]
 /-- `P` declares `f:I ↦ g`, `C` (not in the mappings) extends `P`: the reference `C.f:I` is not renamed, although the
 nearest declaring super type of `C` maps it. The property text asks for the super type's answer here. -/
 theorem member_resolution_unmapped_witness :
-    (remapperB mU 0 1).map (fun r => (mapMember BClass.fields r supU 5 (jstr "C") (jstr "f", jstr "I"),
-        mapMember BClass.fields r supU 5 (jstr "P") (jstr "f", jstr "I"))) =
-      some (some (some (jstr "f", jstr "I")), some (some (jstr "g", jstr "I"))) := by
+    (remapperB mU 0 1).bind (fun r => mapMember BClass.fields r supU 5 (jstr "C") (jstr "f", jstr "I")) =
+      some (some (jstr "f", jstr "I")) ∧
+    (remapperB mU 0 1).bind (fun r => mapMember BClass.fields r supU 5 (jstr "P") (jstr "f", jstr "I")) =
+      some (some (jstr "g", jstr "I")) := by
   decide
 
 /-! ## fallbacks -/
@@ -358,16 +362,15 @@ theorem roundtrip_class_b {m : Mappings} {x y : Nat} {rf rb : BTable}
   rw [mapClass_classTable hb]
   exact roundtrip_class m x y c h
 
+def fldW (n t : String) : MemberKey × Field :=
+  ((jstr n, jstr "I"), { desc := jstr "I", names := [some (jstr n), some (jstr t)], doc := none })
+
+def clsW (n t : String) (fields : AList MemberKey Field) : JStr × Class :=
+  (jstr n, { names := [some (jstr n), some (jstr t)], doc := none, fields := fields, methods := [] })
+
 def mW : Mappings :=
   { ns := [jstr "official", jstr "named"], doc := none,
-    classes := [
-      (jstr "A", { names := [some (jstr "A"), some (jstr "Z")], doc := none, fields := [], methods := [] }),
-      (jstr "B", { names := [some (jstr "B"), some (jstr "Z")], doc := none,
-        fields := [
-          ((jstr "f", jstr "I"), { desc := jstr "I", names := [some (jstr "f"), some (jstr "h")], doc := none }),
-          ((jstr "g", jstr "I"), { desc := jstr "I", names := [some (jstr "g"), some (jstr "h")], doc := none })],
-        methods := [] }),
-      (jstr "S", { names := [some (jstr "S"), some (jstr "a;b")], doc := none, fields := [], methods := [] })] }
+    classes := [clsW "A" "Z" [], clsW "B" "Z" [fldW "f" "h", fldW "g" "h"], clsW "S" "a;b" []] }
 
 /-- two classes with the same target: `A ↦ Z ↦ B` -/
 theorem roundtrip_class_witness :
@@ -512,10 +515,10 @@ theorem roundtrip_member_query (k : Kind) {m : Mappings} {x y : Nat} {rf rb : BT
 
 /-- two fields of one class with the same target name and descriptor: `B.f ↦ Z.h ↦ B.g` -/
 theorem roundtrip_member_witness :
-    (remapperB mW 0 1).bind (fun rf => (remapperB mW 1 0).map (fun rb =>
-      (declares BClass.fields rf (jstr "f", jstr "I") (jstr "B"),
-       declares BClass.fields rb (jstr "h", jstr "I") (jstr "Z")))) =
-      some (some (jstr "h", jstr "I"), some (jstr "g", jstr "I")) := by
+    (remapperB mW 0 1).bind (fun rf => declares BClass.fields rf (jstr "f", jstr "I") (jstr "B")) =
+      some (jstr "h", jstr "I") ∧
+    (remapperB mW 1 0).bind (fun rb => declares BClass.fields rb (jstr "h", jstr "I") (jstr "Z")) =
+      some (jstr "g", jstr "I") := by
   decide
 
 end Thm.C06
